@@ -37,6 +37,7 @@ type propSpec struct {
 	Components   []component
 	Assumptions  []string
 	FaultKinds   []string // fault kinds this harness can inject (for the evidence table)
+	Parts        []*propSpec // further worker binaries deciding the same property (own harness, package and weave); Workers = their share of the 16
 }
 
 var commonAssumptions = []string{
@@ -130,6 +131,31 @@ var specs = map[string]*propSpec{
 			{"clock, tickers, deadlines", "stub", "testing/synctest fake clock"},
 		},
 		FaultKinds: []string{"client-close", "client-vanish", "server-close", "net-short-read", "clock-jump"},
+		Parts: []*propSpec{{
+			ID: "C16g", Title: "WebSocket rooms stay consistent under concurrency (language level)",
+			TestPkg: "cmd/glyph", HarnessDir: "C16g", HarnessExtra: []string{"glyphcommon"},
+			Weave: []weave.PkgConfig{
+				{Path: "./cmd/glyph", Touch: true},
+				{Path: "./pkg/server"},
+				{Path: "./pkg/websocket", Touch: true, Replace: map[string]string{"crypto/rand": weave.RTPath + "/simrand"}},
+				{Path: "./pkg/interpreter"},
+				{Path: "./pkg/vm"},
+				{Path: "github.com/gorilla/websocket", Replace: map[string]string{"crypto/rand": weave.RTPath + "/simrand"}},
+			},
+			ExtraPkgs:      []extraPkg{{From: "sim/simrand", To: "pkg/zzsimrt/simrand"}, {From: "harness/C16g/export", To: "pkg/websocket"}},
+			ReplaceModules: []replaceModule{{Path: "github.com/gorilla/websocket", Dir: "github.com/gorilla/websocket@v1.5.3"}},
+			Chunk:          50, Workers: 5,
+			Rule: "each run generates a Glyph module with `@ ws /room/:room` (and in half the runs `@ ws /lobby`) whose on connect / on message / on disconnect bodies are drawn from variants (connect joins or not; disconnect handler broadcasts and leaves, joins rooms, sends to itself, or only leaves) plus HTTP routes reading hub statistics, builds it with parseSource+setupRoutes, mounts it as `glyph run` does, and drives 2-5 gorilla clients over the simulated network (say / say to another room / join / leave / join-say-leave / broadcast to all / rooms query / server-side close / built-in join_room frame / orderly close / vanish / stalled reader) and 0-2 tasks issuing HTTP requests; non-trivial and distinct as for the main harness",
+			Components: []component{
+				{"parser, compiler.CompileWebSocketRoute, setupRoutes, registerCompiledWebSocketRoute, executeWebSocketBytecode, createHandler, loggingMiddleware (cmd/glyph)", "real-woven", "L0 + race probes"},
+				{"pkg/vm executing the handler bodies, websocket.VMHandler / VMStatsHandler", "real-woven", "L0"},
+				{"pkg/websocket Server.HandleWebSocketWithPattern, hub, pumps, rooms (default configuration)", "real-woven", "L0 + race probes"},
+				{"gorilla/websocket", "real-woven", "L0"},
+				{"http.ServeMux mounting of the WebSocket paths", "real-unwoven", "the loop of startServer is repeated in the harness because startServer does not return the hub"},
+				{"TCP connection, ResponseWriter/Hijacker", "stub", "SimConn pair and harness writer"},
+			},
+			FaultKinds: []string{"client-close", "client-vanish", "server-close", "client-stops-reading", "net-short-read", "clock-jump"},
+		}},
 	},
 	"C14": {
 		ID: "C14", Title: "database transactions are all-or-nothing",
